@@ -869,6 +869,8 @@ class Interp(object):
                     else:
                         abstract.append((s2, seq))
         if abstract:
+            if getattr(self, "_in_comprehension", 0):
+                raise _absexpr._AbstractIteration()
             res.extend(self.loop_abstract(abstract, node))
         return res
 
@@ -898,6 +900,8 @@ class Interp(object):
             return ("concrete", sorted(it, key=repr))
         if isinstance(it, dict):
             return ("concrete", list(it.keys()))
+        if isinstance(it, str) and len(it) <= 4096:
+            return ("concrete", list(it))
         if isinstance(it, AbsSeq):
             return ("abs", it)
         if isinstance(it, Ref):
